@@ -64,8 +64,26 @@ def _stream_worker(job):
         seen[("C09", "further_pass_is_exact_repeat")] = rep
     if r["error"] is not None:
         et, msg, cnt, where = r["error"]
-        seen[("C17", "valid_parameters_yield_complete_stream")] = \
-            "%s during %s after %d actions: %s" % (et, where, cnt, msg)
+        d = "%s during %s after %d actions: %s" % (et, where, cnt, msg)
+        seen[("C17", "valid_parameters_yield_complete_stream")] = d
+        if where == "iterate" and cnt > 0:
+            # the schedule gave up in the middle of its own stream: not executable, not complete
+            seen[("C01", "stream_raises_mid_way")] = d
+            seen[("C02", "stream_ended_early")] = d
+            seen[("C09", "stream_ended_early")] = d
+    # violations in a later adjoint pass: the repeat is not an executable repeat (C09)
+    pb0 = r["pass_bounds"]
+    if len(pb0) >= 1:
+        first_end = pb0[0][1]
+        for p, c, d in r["viol"]:
+            if p in ("C01", "C02", "C12") and d.startswith("action["):
+                try:
+                    idx = int(d[len("action["):d.index("]")])
+                except ValueError:
+                    continue
+                if idx >= first_end:
+                    seen.setdefault(("C09", "further_pass_is_executable_repeat"), "%s %s %s" % (p, c, d))
+                    break
     return (spec, [(p, c, d) for (p, c), d in seen.items()], r["stats"],
             r.get("n_actions", 0), nontrivial, r["stream"][:12])
 
@@ -172,7 +190,9 @@ def c05(tier, seed):
         r["evaluations"] += 1
         if nontrivial:
             r["distinct_nontrivial"] += 1
-        if any(p == "C17" for p, _, _ in viol):
+        err = [d for p, c, d in viol if p == "C17"]
+        if err:
+            r["violations"].append(_viol("C05", "adjoint_completed", spec, err[0]))
             continue
         want = n + specs.gw_extra_closed(n, s) if n > 1 else 1
         if stats["fwd_steps"] != want:
@@ -196,8 +216,8 @@ def c06(tier, seed):
                                             "optimal_steps_mixed_equals_spec"])
     sp = []
     for n in range(1, nmax + 1):
-        ss = range(min(1, n - 1), n + 1) if n <= 40 else \
-            sorted(set(list(range(1, 12)) + [n // 3, n // 2, n - 2, n - 1, n]))
+        ss = range(min(1, n - 1), n + 3) if n <= 40 else \
+            sorted(set(list(range(1, 12)) + [n // 3, n // 2, n - 2, n - 1, n, n + 2]))
         for s in ss:
             for st in ("RAM", "DISK"):
                 sp.append(("Mixed", (n, s), (("storage", st),), n))
@@ -208,7 +228,9 @@ def c06(tier, seed):
         r["evaluations"] += 1
         if nontrivial:
             r["distinct_nontrivial"] += 1
-        if any(p == "C17" for p, _, _ in viol):
+        err = [d for p, c, d in viol if p == "C17"]
+        if err:
+            r["violations"].append(_viol("C06", "adjoint_completed", spec, err[0]))
             continue
         want = specs.mixed_opt(n, s)
         if stats["fwd_steps"] != want:
@@ -257,6 +279,7 @@ def _c07_worker(job):
     def run(spec):
         r = drive(spec, passes=1, keep_stream=False, observe=False)
         if r["error"] is not None:
+            out.append(("adjoint_completed", spec, str(r["error"])))
             return None
         return _cost(r["stats"], n, c)
     for cls in ("Revolve", "DiskRevolve", "PeriodicDiskRevolve"):
@@ -580,7 +603,7 @@ def c11(tier, seed):
                                 "uses_storage_type_true_for_every_storage_touched"])
     specs = list(boxes.basic_specs(tier)) + list(boxes.multistage_specs("quick")) + \
         list(boxes.mixed_specs(tier)) + list(boxes.twolevel_specs("quick")) + \
-        list(boxes.revolve_specs(tier, costs=boxes.COSTS[:6] if tier == "quick" else None))
+        list(boxes.revolve_specs(tier))
     out = _pool_map(_c11_worker, specs)
     for spec, viol, count in out:
         r["evaluations"] += 1
